@@ -631,8 +631,14 @@ func (s *ShortestPathSearch) FillCountsAndDistancesFromPaths(counts map[b6.Segme
 				lastDistance = b6.MetersToAngle(d)
 			}
 			ds := interpolateShortestPathDistances(segment, firstDistance, lastDistance)
+			// Only fill in points the search didn't reach itself, ie those between
+			// graph nodes: the interpolation works with physical lengths, so writing
+			// it back for the ends of the segment replaced the weighted distance the
+			// search found for them whenever weights aren't plain meters.
 			for i := 0; i < segment.Len(); i++ {
-				distances[segment.SegmentFeatureID(i)] = b6.AngleToMeters(ds[i])
+				if id := segment.SegmentFeatureID(i); s.byPoint[id] == nil {
+					distances[id] = b6.AngleToMeters(ds[i])
+				}
 			}
 		}
 	}
